@@ -91,7 +91,7 @@ theorem create_from_info_fn_eq_model (info : Info) (hw : InfoWF info) :
   obtain ⟨hw1, hw2⟩ := hw
   simp only [] at hw1 hw2
   unfold create_from_info_fn createFromInfo
-  simp only [ite_self, pyUConstruct]
+  simp only [ite_self, pyUConstruct, pyModuleClass]
   cases hct : construct (squash kind) terms with
   | error e => rfl
   | ok t =>
@@ -110,38 +110,80 @@ theorem create_from_info_fn_eq_model (info : Info) (hw : InfoWF info) :
     | none =>
       cases numAnc with
       | none =>
-        simp only [Option.isSome_none, Bool.false_eq_true, if_false, and_false, false_and]
-        rw [fin _ rfl rfl _ (fun _ _ => rfl)]
-        cases constraints <;> first | rfl | (simp only []; split_ifs <;> first | rfl | (cases readdAll kind [] _ <;> rfl))
+        first
+        | (simp only [Option.isSome_none, Bool.false_eq_true, if_false, and_false, false_and]
+           rw [fin _ rfl rfl _ (fun _ _ => rfl)]
+           cases constraints <;> first | rfl | (simp only []; split_ifs <;> first | rfl | (cases readdAll kind [] _ <;> rfl)))
+        | (simp only [ne_eq, not_true_eq_false, not_false_eq_true, if_true, if_false, ok_bind', Option.isSome_some, Option.isSome_none, pySetMapping, reduceCtorEq, *]
+           rw [fin _ rfl rfl _ (fun _ _ => rfl)]
+           cases constraints <;> first | rfl | (simp only []; split_ifs <;> first | rfl | (cases readdAll kind [] _ <;> rfl)))
+        | (simp [pySetMapping, *]
+           rw [fin _ rfl rfl _ (fun _ _ => rfl)]
+           cases constraints <;> first | rfl | (simp only []; split_ifs <;> first | rfl | (cases readdAll kind [] _ <;> rfl)))
       | some n =>
         by_cases hn : n = 0
         · subst hn
-          simp only [Option.isSome_none, Option.isSome_some, Bool.false_eq_true, if_false, bne_self_eq_false, and_false,
-            false_and, and_true]
-          rw [fin _ rfl rfl _ (fun _ _ => rfl)]
-          cases constraints <;> first | rfl | (simp only []; split_ifs <;> first | rfl | (cases readdAll kind [] _ <;> rfl))
+          first
+          | (simp only [Option.isSome_none, Option.isSome_some, Bool.false_eq_true, if_false, bne_self_eq_false, and_false,
+              false_and, and_true]
+             rw [fin _ rfl rfl _ (fun _ _ => rfl)]
+             cases constraints <;> first | rfl | (simp only []; split_ifs <;> first | rfl | (cases readdAll kind [] _ <;> rfl)))
+          | (simp only [ne_eq, not_true_eq_false, not_false_eq_true, if_true, if_false, ok_bind', Option.isSome_some, Option.isSome_none, pySetMapping, reduceCtorEq, *]
+             rw [fin _ rfl rfl _ (fun _ _ => rfl)]
+             cases constraints <;> first | rfl | (simp only []; split_ifs <;> first | rfl | (cases readdAll kind [] _ <;> rfl)))
+          | (simp [pySetMapping, *]
+             rw [fin _ rfl rfl _ (fun _ _ => rfl)]
+             cases constraints <;> first | rfl | (simp only []; split_ifs <;> first | rfl | (cases readdAll kind [] _ <;> rfl)))
         · have hn' : (n != 0) = true := by simpa using hn
-          simp only [Option.isSome_none, Option.isSome_some, Bool.false_eq_true, if_false, hn', and_self, if_true, ok_bind',
-            false_and]
-          rw [fin _ rfl rfl _ (fun _ _ => rfl)]
-          cases constraints <;> first | rfl | (simp only []; split_ifs <;> first | rfl | (cases readdAll kind [] _ <;> rfl))
+          first
+          | (simp only [Option.isSome_none, Option.isSome_some, Bool.false_eq_true, if_false, hn', and_self, if_true, ok_bind',
+              false_and]
+             rw [fin _ rfl rfl _ (fun _ _ => rfl)]
+             cases constraints <;> first | rfl | (simp only []; split_ifs <;> first | rfl | (cases readdAll kind [] _ <;> rfl)))
+          | (simp only [ne_eq, not_true_eq_false, not_false_eq_true, if_true, if_false, ok_bind', Option.isSome_some, Option.isSome_none, pySetMapping, reduceCtorEq, *]
+             rw [fin _ rfl rfl _ (fun _ _ => rfl)]
+             cases constraints <;> first | rfl | (simp only []; split_ifs <;> first | rfl | (cases readdAll kind [] _ <;> rfl)))
+          | (simp [pySetMapping, *]
+             rw [fin _ rfl rfl _ (fun _ _ => rfl)]
+             cases constraints <;> first | rfl | (simp only []; split_ifs <;> first | rfl | (cases readdAll kind [] _ <;> rfl)))
     | some mp =>
       have hlab := hw1 rfl
       simp only [Option.isSome_some, and_self, if_true, ok_bind', pySetMapping, hlab]
       cases numAnc with
       | none =>
-        simp only [Option.isSome_none, Bool.false_eq_true, if_false, and_false, false_and]
-        rw [fin _ rfl rfl _ (fun _ _ => rfl)]
-        cases constraints <;> first | rfl | (simp only []; split_ifs <;> first | rfl | (cases readdAll kind [] _ <;> rfl))
+        first
+        | (simp only [Option.isSome_none, Bool.false_eq_true, if_false, and_false, false_and]
+           rw [fin _ rfl rfl _ (fun _ _ => rfl)]
+           cases constraints <;> first | rfl | (simp only []; split_ifs <;> first | rfl | (cases readdAll kind [] _ <;> rfl)))
+        | (simp only [ne_eq, not_true_eq_false, not_false_eq_true, if_true, if_false, ok_bind', Option.isSome_some, Option.isSome_none, pySetMapping, reduceCtorEq, *]
+           rw [fin _ rfl rfl _ (fun _ _ => rfl)]
+           cases constraints <;> first | rfl | (simp only []; split_ifs <;> first | rfl | (cases readdAll kind [] _ <;> rfl)))
+        | (simp [pySetMapping, *]
+           rw [fin _ rfl rfl _ (fun _ _ => rfl)]
+           cases constraints <;> first | rfl | (simp only []; split_ifs <;> first | rfl | (cases readdAll kind [] _ <;> rfl)))
       | some n =>
         by_cases hn : n = 0
         · subst hn
-          simp only [Option.isSome_some, bne_self_eq_false, Bool.false_eq_true, and_false, if_false, and_true]
-          rw [fin _ rfl rfl _ (fun _ _ => rfl)]
-          cases constraints <;> first | rfl | (simp only []; split_ifs <;> first | rfl | (cases readdAll kind [] _ <;> rfl))
+          first
+          | (simp only [Option.isSome_some, bne_self_eq_false, Bool.false_eq_true, and_false, if_false, and_true]
+             rw [fin _ rfl rfl _ (fun _ _ => rfl)]
+             cases constraints <;> first | rfl | (simp only []; split_ifs <;> first | rfl | (cases readdAll kind [] _ <;> rfl)))
+          | (simp only [ne_eq, not_true_eq_false, not_false_eq_true, if_true, if_false, ok_bind', Option.isSome_some, Option.isSome_none, pySetMapping, reduceCtorEq, *]
+             rw [fin _ rfl rfl _ (fun _ _ => rfl)]
+             cases constraints <;> first | rfl | (simp only []; split_ifs <;> first | rfl | (cases readdAll kind [] _ <;> rfl)))
+          | (simp [pySetMapping, *]
+             rw [fin _ rfl rfl _ (fun _ _ => rfl)]
+             cases constraints <;> first | rfl | (simp only []; split_ifs <;> first | rfl | (cases readdAll kind [] _ <;> rfl)))
         · have hn' : (n != 0) = true := by simpa using hn
-          simp only [Option.isSome_some, hn', and_self, if_true, ok_bind']
-          rw [fin _ rfl rfl _ (fun _ _ => rfl)]
-          cases constraints <;> first | rfl | (simp only []; split_ifs <;> first | rfl | (cases readdAll kind [] _ <;> rfl))
+          first
+          | (simp only [Option.isSome_some, hn', and_self, if_true, ok_bind']
+             rw [fin _ rfl rfl _ (fun _ _ => rfl)]
+             cases constraints <;> first | rfl | (simp only []; split_ifs <;> first | rfl | (cases readdAll kind [] _ <;> rfl)))
+          | (simp only [ne_eq, not_true_eq_false, not_false_eq_true, if_true, if_false, ok_bind', Option.isSome_some, Option.isSome_none, pySetMapping, reduceCtorEq, *]
+             rw [fin _ rfl rfl _ (fun _ _ => rfl)]
+             cases constraints <;> first | rfl | (simp only []; split_ifs <;> first | rfl | (cases readdAll kind [] _ <;> rfl)))
+          | (simp [pySetMapping, *]
+             rw [fin _ rfl rfl _ (fun _ _ => rfl)]
+             cases constraints <;> first | rfl | (simp only []; split_ifs <;> first | rfl | (cases readdAll kind [] _ <;> rfl)))
 
 end Qv.Gen
